@@ -304,6 +304,17 @@ func child(h History) {
 		hookTids = []int{t0}
 		if migrate {
 			for i := 0; i < 25 && syscall.Gettid() == t0; i++ {
+				if i%2 == 1 {
+					// hand-off: a goroutine wires itself to the thread it first runs on — with a single P that is
+					// the thread this goroutine just left — and blocks there in a system call, so the P moves on
+					// to another thread and takes an unpinned goroutine with it (works with GOMAXPROCS=1 too)
+					go func() {
+						runtime.LockOSThread()
+						ts := syscall.Timespec{Nsec: 3000000}
+						syscall.Nanosleep(&ts, nil)
+						runtime.UnlockOSThread()
+					}()
+				}
 				time.Sleep(100 * time.Microsecond)
 				runtime.Gosched()
 			}
@@ -564,6 +575,10 @@ func genHistory(r *rand.Rand, profile string) History {
 		}
 	case "nnp":
 		h.Privileged = r.Intn(4) == 0
+		if r.Intn(3) == 0 {
+			// a single P: "nothing can steal the goroutine" is false — a blocked thread hands its P over
+			h.Procs = 1
+		}
 	case "load":
 		if r.Intn(5) == 0 {
 			h.Procs = 1
